@@ -3463,7 +3463,9 @@ Box<ITV>
       seq_var.upper_extend();
     }
 
-    if (!unbounded_lower) {
+    // Note: if `var' does not occur in `ub_expr', the old lower bound
+    // of `var' induces no constraint on `var' itself.
+    if (!unbounded_lower && ub_var_coeff != 0) {
       // `lb_expr' is revised by removing the `var' component,
       // multiplying by `-' denominator of the lower bound for `var',
       // and adding the lower bound for `var' to the inhomogeneous term.
@@ -3502,7 +3504,8 @@ Box<ITV>
       }
     }
 
-    if (!unbounded_upper) {
+    // Note: likewise for `lb_expr' and the old upper bound of `var'.
+    if (!unbounded_upper && lb_var_coeff != 0) {
       // `ub_expr' is revised by removing the `var' component,
       // multiplying by `-' denominator of the upper bound for `var',
       // and adding the upper bound for `var' to the inhomogeneous term.
